@@ -220,6 +220,17 @@ func checkDeferredOpt(rc *core.RunCtx, cfg Cfg, out *Out, orderMatters bool) (*d
 		// group was delivered for it: a client cannot find the path
 		info.OrderProblem = fmt.Sprintf("payload %d (path %q label %q) was delivered although its object was removed by null propagation and is in no payload", pending[0].i, pending[0].p.Path, pending[0].p.Label)
 		info.OrderSite = "group-for-undelivered-object"
+		for _, pd := range pending {
+			// (only decidable when the group itself came back with data: a group that failed
+			// may be the very reason the reference sees the object as invalid)
+			if ref.InvalidObjects[pd.p.Path] && !failed[pd.p.Path] && pd.p.Data != nil && !pd.p.Data.IsNull() {
+				// the object is invalid because of one of its own non-deferred fields: its
+				// groups must never have been started
+				info.OrderProblem = fmt.Sprintf("payload %d (path %q label %q) belongs to an object that is itself invalid (one of its own non-deferred non-null fields failed), yet its deferred group was started and delivered", pd.i, pd.p.Path, pd.p.Label)
+				info.OrderSite = "group-of-invalid-object"
+				break
+			}
+		}
 	}
 	if got, want := merged.CanonSorted(), ref.Data.CanonSorted(); got != want {
 		rc.Fail("merged-data-mismatch", dataSite(want, got), "merged payloads differ from the plain result\nexpected %s\nmerged   %s\n%s", want, got, desc())
